@@ -311,6 +311,35 @@ def peer_suite(ctx, vh):
                        "case": rows[bad_a[0]]}, no_input=True)
 
 
+def queue_suite(ctx, vh):
+    """clientPacketQueue (Retries > 0) is outside the model; its at-most-once behaviour is probed directly."""
+    rows = ctx.vh_jsonl(vh, "acks", ["-mode", "queue", "-seed", ctx.seed], timeout=300)
+    if rows is None:
+        return
+    ok = True
+    for r in rows:
+        if r.get("err"):
+            ctx.indeterminate += 1
+            continue
+        ctx.count(1, nontrivial_key=("queue", r["cut_at"]), dist="queue:%s" % ("reconnect" if r["cut_at"] >= 0 else "plain"))
+        replay = {"kind": "failing-input", "engine": "acks", "mode": "queue", "case": r,
+                  "replay_cmd": "vh acks -mode queue"}
+        for which, invs in (("first", r["invs"]), ("second", r["invs2"])):
+            if len(invs) > 1:
+                ok = False
+                what = ("client with Retries=%d, AckTimeout=%dms: callback of the %s queued packet ran %d times (%s) "
+                        "(connection dropped %d ms after Emit, server answers after %d ms)"
+                        % (r["retries"], r["timeout"], which, len(invs),
+                           ["timeout" if i["to"] else "reply(%d)" % i["code"] for i in invs], r["cut_at"], r["delay"]))
+                # finding class: Retries > 0 and a reconnect (forced drain) while an attempt is still pending
+                ctx.fail_or_known("retry-queue-forced-drain" if r["retries"] > 0 and r["cut_at"] >= 0 else None, what, replay)
+        if r["cut_at"] < 0 and (len(r["invs"]) != 1 or r["invs"][0]["to"] or r["invs"][0]["code"] != 42):
+            ok = False
+            ctx.violation("client with Retries=%d: plain emit through the retry queue, callback got %s (expected one reply 42)"
+                          % (r["retries"], r["invs"]), replay)
+    ctx.obligation("oracle:queue", "oracle", ok, "%d scenarios" % len(rows))
+
+
 def run(ctx):
     ctx.rule = ("purge: every layout of <=2 packets and a seeded sample (quick) / all (thorough) of the 3-packet layouts over "
                 "{T,K,N} x 0..3 attachments, non-trivial = a timed-out packet with >=1 attachment; live: one case per emitted "
@@ -325,11 +354,12 @@ def run(ctx):
     vh = ctx.go_build()
     if vh is None:
         return
-    with cf.ThreadPoolExecutor(max_workers=5) as ex:
+    with cf.ThreadPoolExecutor(max_workers=6) as ex:
         futs = [ex.submit(purge_suite, ctx, vh),
                 ex.submit(live_suite, ctx, vh, "race", "race", race_cases),
                 ex.submit(live_suite, ctx, vh, "forced", "forced", race_cases),
                 ex.submit(live_suite, ctx, vh, "raw", "raw", raw_cases),
-                ex.submit(peer_suite, ctx, vh)]
+                ex.submit(peer_suite, ctx, vh),
+                ex.submit(queue_suite, ctx, vh)]
         for f in futs:
             f.result()
